@@ -189,3 +189,48 @@ def naming_keys(mode, records):
         for k in keys:
             out.setdefault(k, i)
     return out
+
+
+# --- featuretypes that look alike -----------------------------------------------------------------------------------
+def lookalike_relations(children, ft):
+    """How children that are NOT of the named type(s) resemble a named type: 'letter case' (equal ignoring case),
+    'wildcard' (equal except where the named type has '_' - any one character - or '%' - any run of characters),
+    'letter case and wildcard'.  Used for counting what a case exercised; selection itself is by equality (select)."""
+    import re
+
+    types = _types(ft)
+    out = set()
+    for c in children:
+        if c["type"] in types:
+            continue
+        for t in types:
+            rx = "".join(".*" if ch == "%" else "." if ch == "_" else re.escape(ch) for ch in t)
+            if c["type"].lower() == t.lower():
+                out.add("letter case")
+            elif re.fullmatch(rx, c["type"], re.S):
+                out.add("wildcard")
+            elif re.fullmatch(rx, c["type"], re.S | re.I):
+                out.add("letter case and wildcard")
+    return out
+
+
+def lookalikes(children, ft):
+    """The children that resemble a named type without being of it (see lookalike_relations)."""
+    types = _types(ft)
+    return [c for c in children if c["type"] not in types and lookalike_relations([c], ft)]
+
+
+def name_relation(a, b):
+    """How two different record names resemble one another: 'letter case', 'normalisation form', or None."""
+    import unicodedata
+
+    if a == b:
+        return None
+    if a.lower() == b.lower() or a.upper() == b.upper() or a.casefold() == b.casefold():
+        return "letter case"
+    for form in ("NFC", "NFKC"):
+        if unicodedata.normalize(form, a) == unicodedata.normalize(form, b):
+            return "normalisation form"
+    if unicodedata.normalize("NFKC", a).casefold() == unicodedata.normalize("NFKC", b).casefold():
+        return "letter case"
+    return None
